@@ -63,22 +63,16 @@ func wantBound(c *mCfg) []string {
 	return out
 }
 
-// handlerTasks counts the server's serving goroutines.
-func handlerTasks() (streamServe, handlePacket int, other []simrt.TaskInfo) {
+// serverTasks lists the goroutines the server itself started that are alive
+// right now (no function names involved: every instrumented go statement).
+func serverTasks() []simrt.TaskInfo {
+	var out []simrt.TaskInfo
 	for _, t := range simrt.Snapshot() {
-		if t.Kind != "repo" {
-			continue
-		}
-		switch {
-		case strings.Contains(t.Where, "service.StreamServe("):
-			streamServe++
-		case strings.Contains(t.Where, "service.(*packetHandler).Handle("):
-			handlePacket++
-		default:
-			other = append(other, t)
+		if t.Kind == "repo" {
+			out = append(out, t)
 		}
 	}
-	return
+	return out
 }
 
 func runC10(rc *RunCtx) {
@@ -259,6 +253,8 @@ func runC10(rc *RunCtx) {
 			orig := w.ListenFail
 			w.ListenFail = func(network, addr string) error { nBinds++; return orig(network, addr) }
 		}
+		simrt.Sleep(time.Millisecond) // let earlier probes' handlers finish
+		tasksBefore := len(serverTasks())
 		lerr := ms.Srv.LoadConfigForVerif(ms.File)
 		if cleanup != nil {
 			cleanup()
@@ -298,17 +294,12 @@ func runC10(rc *RunCtx) {
 		if strings.Join(got, " ") != strings.Join(want, " ") {
 			rc.Failf(pfx+"listening-set-differs", "%s: the server listens on %v, the last successfully loaded configuration has %v", when, got, want)
 		}
-		ss, hp, _ := handlerTasks()
-		nt, nu := 0, 0
-		for _, o := range good.owners() {
-			if o.ln.Type == "tcp" {
-				nt++
-			} else {
-				nu++
+		if lerr != nil {
+			// A failed attempt must leave nothing of itself running: the server has
+			// exactly the goroutines it had before the attempt.
+			if now := serverTasks(); len(now) != tasksBefore {
+				rc.Failf(pfx+"serving-goroutines-differ", "%s: the server had %d goroutines before the failed attempt and has %d after it:%s", when, tasksBefore, len(now), describeTasks(now))
 			}
-		}
-		if ss != nt || hp != nu {
-			rc.Failf(pfx+"serving-goroutines-differ", "%s: %d StreamServe and %d HandlePacket loops are running, the last successfully loaded configuration has %d TCP and %d UDP listeners", when, ss, hp, nt, nu)
 		}
 		rep := 1
 		if anyFailed {
